@@ -208,7 +208,14 @@ class FakeDisk(object):
         if "w" not in mode and "a" not in mode and "+" not in mode:
             if path not in self.files:
                 raise FileNotFoundError(errno.ENOENT, "simulated: no such file", path)
-            raise HarnessError("unexpected read through the disk seam: %s" % path)
+            # a reader sees what is on the simulated disk now
+            import io
+
+            self.stats.probe("data_file_read_through_the_seam")
+            raw = io.BytesIO(self.files[path])
+            if "b" in mode:
+                return raw
+            return io.TextIOWrapper(raw, encoding=encoding or "utf-8")
         self.opens += 1
         f = self.fault
         if f is not None and f["kind"] == "disk_open_error":
